@@ -1060,9 +1060,12 @@ def execute(case):
                 raise HarnessError(scan.error)
             if mod_seq[pops - 1]['rule_dirs'] and not scan.calls \
                     and raised is None:
-                raise HarnessError(
-                    'the populator listed a directory without going '
-                    'through os.scandir: listing order is not owned')
+                # the populator lists directories without going through the
+                # os.scandir attribute (e.g. it bound the function at import
+                # time): the listing order is then the file system's own.
+                # The oracle never depends on the order (where it decides a
+                # winner the winner is free), so this is information only.
+                hits['listing_order_not_owned'] = 1
             calls += 1
             nodes = _walk(m)
             v, facts = check_population(m, recorder, mod_seq[:pops], rules,
